@@ -400,6 +400,19 @@ def check(pid, tier, seed):
             if any(v["status"] == "compile_error" for v in res.values()):
                 errs = "\n".join(l for l in out.splitlines() if l.startswith("error") or l.startswith("  -->"))[:3000]
                 raise Undecided("staged crate does not compile (anchor lost or signature changed):\n" + errs)
+        # one retry, with few parallel jobs, for harnesses that produced no verdict (solver killed by the
+        # memory guard or timed out under load): a transient resource problem must not turn into exit 2
+        flaky = [n for n in names if results.get(n, {}).get("status") in ("error", "timeout", "missing")]
+        if flaky and len(flaky) <= 12:
+            for g in groups:
+                gn = [n for n in flaky if re.search(g["match"], n)]
+                flaky = [n for n in flaky if n not in gn]
+                if gn:
+                    res, out, wall, cmd = run_kani(stage, pid, gn, list(g.get("flags", [])), g.get("timeout", cfg.get("timeout", 600)), min(4, jobs))
+                    for n, v in res.items():
+                        v["retried"] = True
+                    results.update(res)
+                    cmds.append(cmd)
         cov["checker_cmd"] = " ; ".join(cmds)
         # counterexamples for every refuted non-canary harness with a clause that is not a recorded
         # finding: ONE parallel playback run per flag group
